@@ -29,6 +29,7 @@ type IOpt<T> =
 | INone
 
 type IBox<T> = {Val: T; Tag: string}
+type IPair<A, B> = {Fst: A; Snd: B}
 
 let ipair a b =
   (a, b)
@@ -1054,7 +1055,7 @@ def generate(rng, n):
 
 # ------------------------------------------------------------------------------------------ abstract syntax -> Folang text
 CALLFMT = {"int+": "{0} + {1}", "same+": "{0} + {1}", "str+": "{0} + {1}", "cmp": "{0} < {1}", "eq": "{0} = {1}", "{IR1}": "{{A={0}; B={1}}}", "{IR2}": "{{Name={0}; Vals={1}}}", "{IR3}": "{{C={0}; D={1}}}",
-           "{IBox}": "{{Val={0}; Tag={1}}}"}
+           "{IBox}": "{{Val={0}; Tag={1}}}", "{IPair}": "{{Fst={0}; Snd={1}}}"}
 
 
 def render_ast(e):
@@ -1172,6 +1173,17 @@ def kernels():
     KA("k20b", ["bs", "y"], {"bs": BOXS}, call("slice.Map", ["lam", "b", ["slice", [_fld("b", "Val"), V("y")]]], V("bs")))
     KA("k20c", ["bags", "y"], {"bags": IR2S}, call("slice.Map", ["lam", "b", call("slice.Map", ["lam", "v", ["slice", [V("v"), V("y")]]], _fld("b", "Vals"))], V("bags")))
     KA("k20d", ["y", "bags"], {"bags": IR2S}, ["tuple", [V("y"), call("slice.Map", ["lam", "b", ["tuple", [_fld("b", "Name"), ["slice", [_fld("b", "Vals"), ["slice", [V("y")]]]]]]], V("bags"))]])
+    # a generic record with TWO type parameters: x gets its first type argument from p and its second one from q, so its instance
+    # IPair<int, string> is composed of two partially known ones (defect 30); with a field access before / after, and in the other order
+    P = lambda a, b: call("{IPair}", a, b)
+    K("k22a", ["x", "a", "b"], [["let", "p", P(LIT["int"], V("a"))], ["let", "q", P(V("b"), LIT["str"])], ["let", "l", ["slice", [V("x"), V("p")]]],
+                                ["let", "t", ["slice", [V("x"), V("q")]]]], pair(V("t"), V("l")))
+    K("k22b", ["x", "a", "b"], [["let", "v", _fld("x", "Fst")], ["let", "p", P(LIT["int"], V("a"))], ["let", "q", P(V("b"), LIT["str"])],
+                                ["let", "l", ["slice", [V("x"), V("p")]]], ["let", "t", pair(V("v"), ["slice", [V("x"), V("q")]])]], pair(V("t"), V("l")))
+    K("k22c", ["x", "a", "b"], [["let", "t", ["slice", [V("x"), P(V("b"), LIT["str"])]]], ["let", "l", ["slice", [V("x"), P(LIT["int"], V("a"))]]],
+                                ["let", "w", _fld("x", "Snd")]], pair(pair(V("t"), V("l")), V("w")))
+    K("k22d", ["x", "y", "a", "c"], [["let", "l", ["slice", [V("x"), P(V("a"), LIT["str"])]]], ["let", "m", ["slice", [V("y"), P(LIT["int"], V("c"))]]],
+                                ["let", "n", ["slice", [V("x"), V("y")]]]], pair(pair(V("l"), V("m")), V("n")))
     # a lambda parameter with the name of an outer variable that is used again after the lambda: the two are different variables
     K("k21a", ["x", "ys"], [["let", "zs", call("slice.Map", ["lam", "x", call("int+", V("x"), LIT["int"])], V("ys"))]], pair(V("x"), V("zs")))
     K("k21b", ["x", "ys"], [["let", "zs", call("slice.Map", ["lam", "x", call("int+", V("x"), LIT["int"])], V("ys"))], ["let", "w", ["slice", [V("x"), LIT["str"]]]]], pair(V("w"), V("zs")))
